@@ -77,10 +77,16 @@ class Builder:
             if key in self.done:
                 return self.done[key]
         out = os.path.join(self.cfg_dir(cfg), tu + ".o")
+        src = os.path.join(REPO, "src", tu + ".c")
+        if tu.startswith("lang_"):
+            # CBMC's C front end mis-decodes u8"..." literals with non-ASCII
+            # characters: the table units are re-emitted byte-exactly from a gcc
+            # build of the same source (langdata.dump), see DESIGN.md section 2
+            src = self.table_unit(tu[5:])
         cmd = ["goto-cc", "-c", "--export-file-local-symbols",
                "-I" + REPO + "/include", "-iquote", REPO + "/src",
                "-DPOLYSEED_STATIC", "-std=c11"] + self.cfg_flags(cfg) + \
-              [os.path.join(REPO, "src", tu + ".c"), "-o", out]
+              [src, "-o", out]
         r = sh(cmd)
         if r.returncode != 0:
             raise BuildError("goto-cc failed for %s: %s" % (tu, r.stderr[-2000:]))
@@ -88,12 +94,33 @@ class Builder:
             self.done[key] = out
         return out
 
+    def langs(self):
+        from . import langdata
+        with self.lock:
+            if getattr(self, "_langs", None) is None:
+                self._langs = langdata.dump(self.workdir)
+            return self._langs
+
+    def table_unit(self, lid):
+        from . import langdata
+        path = os.path.join(self.workdir, "gen_lang_%s.c" % lid)
+        with self.lock:
+            pass
+        if not os.path.exists(path):
+            L = [x for x in self.langs() if x["id"] == lid]
+            if not L:
+                raise BuildError("language %s is not registered in /repo (polyseed_get_lang)" % lid)
+            tmp = path + ".%d.tmp" % threading.get_ident()
+            langdata.write_table_unit(L[0], tmp)
+            os.replace(tmp, path)
+        return path
+
     def harness_obj(self, cfg, src, defines, tag):
         out = os.path.join(self.cfg_dir(cfg), "h_" + tag + ".o")
         flags = ["-fsigned-char" if cfg[0] == "s" else "-funsigned-char"]
         cmd = ["goto-cc", "-c", "-I" + REPO + "/include", "-iquote", REPO + "/src",
                "-I" + VERIF + "/spec", "-I" + VERIF + "/harness", "-I" + VERIF + "/stubs",
-               "-I" + VERIF + "/golden",
+               "-I" + VERIF + "/golden", "-I" + self.workdir,
                "-DPOLYSEED_STATIC", "-std=c11"] + flags + ["-D" + d for d in defines] + \
               [src, "-o", out]
         r = sh(cmd)
